@@ -12,7 +12,8 @@ open XknxVerif.TraceRun
 
 theorem fireAt_cases {c : Cfg} {s s' : St} {o : Out} {t : Nat} (hf : fireAt c s o t = some s') :
     ∃ tm, nextTimer s = some tm ∧ tm.at = t ∧ o ∈ (fire c s tm).2 ∧
-      s' = { (fire c s tm).1 with expect := (fire c s tm).2.erase o, log := o :: (fire c s tm).1.log } := by
+      s' = { (fire c s tm).1 with expect := (fire c s tm).2.erase o, log := o :: (fire c s tm).1.log,
+                                   opt := tieOpt s tm } := by
   unfold fireAt at hf
   cases hn : nextTimer s with
   | none => simp [hn] at hf
@@ -26,17 +27,20 @@ theorem fireAt_cases {c : Cfg} {s s' : St} {o : Out} {t : Nat} (hf : fireAt c s 
       · rw [if_neg h2] at hf; cases hf
     · rw [if_neg h1] at hf; cases hf
 
-/-- The four ways a step can be accepted. -/
+/-- The ways a step can be accepted. -/
 inductive StepCase (c : Cfg) (s : St) (o : Obs) (s' : St) : Prop where
   | consume (x : Out) (ho : o = .out x) (hne : s.expect ≠ []) (ht : x.time = s.now) (hmem : x ∈ s.expect)
       (hs : s' = { s with expect := s.expect.erase x, log := x :: s.log })
+  /-- the optional second write of a cooldown/periodic tie -/
+  | consumeOpt (x : Out) (ho : o = .out x) (he : s.expect = []) (ht : x.time = s.now) (hmem : x ∈ s.opt)
+      (hs : s' = { s with opt := [], uw := s.now :: s.uw, log := x :: s.log })
   | fire (x : Out) (s1 : St) (ho : o = .out x) (he : s.expect = [])
       (ha : advance c x.time false (fuelFor c s x.time) s = some s1) (hf : fireAt c s1 x x.time = some s')
   | input (s1 : St) (r : St × List Out) (he : s.expect = [])
       (ha : advance c o.time true (fuelFor c s o.time) s = some s1)
       (hr : inputReaction c (tick s1 o.time) o = some r) (hs : s' = react r)
   | sample (s1 : St) (he : s.expect = []) (ha : advance c o.time true (fuelFor c s o.time) s = some s1)
-      (hq : sampleOk s1 o = some true) (hs : s' = tick s1 o.time)
+      (hq : sampleOk s1 o = some true) (hs : s' = { tick s1 o.time with opt := [] })
 
 theorem step_cases {c : Cfg} {s s' : St} {o : Obs} (h : step? c s o = some s') :
     s.now ≤ o.time ∧ StepCase c s o s' := by
@@ -49,7 +53,7 @@ theorem step_cases {c : Cfg} {s s' : St} {o : Obs} (h : step? c s o = some s') :
         (if (!s.expect.isEmpty) = true then none else
           (advance c o.time true (fuelFor c s o.time) s).bind fun s1 =>
             match sampleOk s1 o with
-            | some ok => if ok = true then some (tick s1 o.time) else none
+            | some ok => if ok = true then some { tick s1 o.time with opt := [] } else none
             | none => (inputReaction c (tick s1 o.time) o).map react) = some s' → StepCase c s o s' := by
       intro o _ h
       by_cases he : (!s.expect.isEmpty) = true
@@ -77,19 +81,28 @@ theorem step_cases {c : Cfg} {s s' : St} {o : Obs} (h : step? c s o = some s') :
     cases o with
     | out x =>
       simp only [Obs.time] at h
-      by_cases he : s.expect.isEmpty = true
-      · simp only [he, ↓reduceIte] at h
-        cases ha : advance c x.time false (fuelFor c s x.time) s with
-        | none => simp [ha] at h
-        | some s1 =>
-          simp only [ha, Option.bind_some] at h
-          exact .fire x s1 rfl (by simpa using he) ha h
-      · simp only [he, Bool.false_eq_true, ↓reduceIte] at h
+      by_cases he : (!s.expect.isEmpty) = true
+      · rw [if_pos he] at h
+        have hne : s.expect ≠ [] := by simpa using he
         by_cases hc : (x.time == s.now && s.expect.contains x) = true
-        · simp only [hc, ↓reduceIte, Option.some.injEq] at h
+        · rw [if_pos hc] at h
+          simp only [Option.some.injEq] at h
           simp only [Bool.and_eq_true, beq_iff_eq, List.contains_iff_mem] at hc
-          exact .consume x rfl (by simpa using he) hc.1 hc.2 h.symm
+          exact .consume x rfl hne hc.1 hc.2 h.symm
         · rw [if_neg hc] at h; cases h
+      · rw [if_neg he] at h
+        have he' : s.expect = [] := by simpa using he
+        by_cases hc : (x.time == s.now && s.opt.contains x) = true
+        · rw [if_pos hc] at h
+          simp only [Option.some.injEq] at h
+          simp only [Bool.and_eq_true, beq_iff_eq, List.contains_iff_mem] at hc
+          exact .consumeOpt x rfl he' hc.1 hc.2 h.symm
+        · rw [if_neg hc] at h
+          cases ha : advance c x.time false (fuelFor c s x.time) s with
+          | none => simp [ha] at h
+          | some s1 =>
+            simp only [ha, Option.bind_some] at h
+            exact .fire x s1 rfl he' ha h
     | set p k t => exact generic _ (by intro x hx; cases hx) h
     | init p t => exact generic _ (by intro x hx; cases hx) h
     | read t => exact generic _ (by intro x hx; cases hx) h
@@ -178,7 +191,7 @@ theorem nextTimer_min {s : St} {t : Nat} {incl : Bool}
     refine ⟨fun d hd => ?_, none_ne_some_due⟩
     cases hd; exact h _ rfl
   · rename_i a b
-    by_cases hab : a ≤ b
+    by_cases hab : a < b
     · simp only [hab, ↓reduceIte] at h
       have ha := h _ rfl
       simp only [Timer.at] at ha
@@ -848,12 +861,12 @@ theorem nextTimer_le {s : St} {tm : Timer} (h : nextTimer s = some tm) :
     · cases ha; exact Nat.le_refl _
     · cases hb
   · rename_i a b
-    by_cases hab : a ≤ b
+    by_cases hab : a < b
     · simp only [hab, ↓reduceIte, Option.some.injEq] at h
       subst h
       refine ⟨fun a' ha => ?_, fun b' hb => ?_⟩
       · cases ha; exact Nat.le_refl _
-      · cases hb; exact hab
+      · cases hb; simp only [Timer.at]; omega
     · simp only [hab, ↓reduceIte, Option.some.injEq] at h
       subst h
       refine ⟨fun a' ha => ?_, fun b' hb => ?_⟩
@@ -902,6 +915,33 @@ theorem fire_now (c : Cfg) (s : St) (tm : Timer) : (fire c s tm).1.now = tm.at :
       exact (send_frame c (perLoop c (tick s d) (tick s d).now) _ false false).2.2.1
     · rfl
 
+/-- Silent firings leave nothing to observe. -/
+theorem advance_expect {c : Cfg} {s s1 : St} {t : Nat} {incl : Bool} {fuel : Nat} (he : s.expect = [])
+    (ha : advance c t incl fuel s = some s1) : (tick s1 t).expect = [] := by
+  have := advance_ind (c := c) (t := t) (incl := incl) (fun s => s.expect = [])
+    (fun s tm hp hn _ he => by
+      cases tm with
+      | cd d =>
+        show (fireCd c (tick s d) d).1.expect = []
+        unfold fireCd
+        split
+        · unfold cooldownTarget
+          split
+          · exact hp
+          · split
+            · exact hp
+            · exact (send_expect c (armCd c (tick s d) d) _ false true d).trans hp
+        · exact hp
+      | per d =>
+        show (firePer c (tick s d) d).1.expect = []
+        unfold firePer
+        split
+        · simp only
+          rw [restartCd_expect]
+          exact (send_expect c (perLoop c (tick s d) d) _ false false d).trans hp
+        · exact hp) _ s s1 he ha
+  exact this.1
+
 theorem advance_Inv {c : Cfg} {s s1 : St} {t : Nat} {incl : Bool} {fuel : Nat} (h : Inv c s []) (hnow : s.now ≤ t)
     (ha : advance c t incl fuel s = some s1) :
     Inv c s1 [] ∧ s1.now ≤ t ∧
@@ -939,67 +979,169 @@ theorem inputReaction_Inv {c : Cfg} {s : St} {o : Obs} {r : St × List Out} (h :
   | q p t => simp [inputReaction] at hr
   | fin t => simp [inputReaction] at hr
 
-/-- The global invariant: `Inv` with the state's own expectation list. -/
-def GInv (c : Cfg) (s : St) : Prop := Inv c s s.expect
+theorem Inv.congrExp {c : Cfg} {s : St} {exp exp' : List Out} (he : exp = exp') (h : Inv c s exp) : Inv c s exp' :=
+  he ▸ h
+
+/-- The `opt` field is not read by the invariant. -/
+theorem Inv.setOpt {c : Cfg} {s : St} {exp : List Out} (e : List Out) (h : Inv c s exp) :
+    Inv c { s with opt := e } exp := by
+  obtain ⟨⟨g1, g1', g2, g3, g4, g5, g6, g7, g8, g9, g10, g13, g14⟩, gn, gp⟩ := h
+  exact ⟨⟨g1, g1', g2, g3, g4, g5, g6, g7, g8, g9, g10, g13, g14⟩, gn, gp⟩
+
+/-- What is known while an optional second write of a cooldown/periodic tie may still appear: it is a write at
+the current instant, the cooldown task has just been restarted, and the previous update-caused write is at least
+one cooldown ago. -/
+def OptOk (c : Cfg) (s : St) : Prop :=
+  ∀ o ∈ s.opt, ∃ p, o = Out.w p s.now ∧ c.cool ≠ 0 ∧ s.cd = some (s.now + c.cool) ∧
+    ∀ u, s.uw.head? = some u → u + c.cool ≤ s.now
+
+/-- The global invariant: `Inv` with the state's own expectation list, and `OptOk`. -/
+def GInv (c : Cfg) (s : St) : Prop := Inv c s s.expect ∧ OptOk c s
 
 theorem advance_tick_Inv {c : Cfg} {s s1 : St} {t : Nat} {fuel : Nat} (h : Inv c s []) (hnow : s.now ≤ t)
     (ha : advance c t true fuel s = some s1) : Inv c (tick s1 t) [] := by
   obtain ⟨h1, hle, hcd, hper⟩ := advance_Inv h hnow ha
   exact tick_Inv h1 hle (fun d hd => (due_false (hcd d hd)).1) (fun d hd => (due_false (hper d hd)).1)
 
+theorem send_uw_noupd (c : Cfg) (s : St) (p : Nat) (resp : Bool) (t : Nat) :
+    (send c s p resp false t).1.uw = s.uw := by
+  unfold send
+  split
+  · simp only [noteOnBus]
+    split <;> simp
+  · rfl
+
+theorem restartCd_uw (c : Cfg) (s : St) (t : Nat) : (restartCd c s t).uw = s.uw := by
+  unfold restartCd; split <;> rfl
+
+/-- The periodic task firing at `d` with something to send: the cooldown task is restarted, `uw` untouched. -/
+theorem firePer_tie {c : Cfg} {s : St} {d p : Nat} (hpac : s.pac = some p) (hcool : c.cool ≠ 0) :
+    (firePer c (tick s d) d).1.cd = some (d + c.cool) ∧ (firePer c (tick s d) d).1.uw = s.uw := by
+  unfold firePer
+  have hp : (tick s d).pac = some p := hpac
+  rw [hp]
+  simp only
+  refine ⟨?_, ?_⟩
+  · unfold restartCd
+    have : (c.cool != 0) = true := by simpa using hcool
+    rw [if_pos this]
+  · rw [restartCd_uw, send_uw_noupd]
+    rfl
+
+theorem tieOpt_mem {s : St} {tm : Timer} {o : Out} (h : o ∈ tieOpt s tm) :
+    ∃ d p, tm = .per d ∧ s.cd = some d ∧ s.pac = some p ∧ o = .w p d := by
+  cases tm with
+  | cd d => simp [tieOpt] at h
+  | per d =>
+    simp only [tieOpt] at h
+    split at h
+    · rename_i hc
+      simp only [Bool.and_eq_true, beq_iff_eq] at hc
+      cases hpac : s.pac with
+      | none => simp [hpac] at h
+      | some p =>
+        simp only [hpac] at h
+        split at h
+        · cases h
+        · simp only [List.mem_singleton] at h
+          exact ⟨d, p, rfl, hc.1, rfl, h⟩
+    · cases h
+
+/-- Observing the optional second write: it is booked as an update-caused write. -/
+theorem consumeOpt_Inv {c : Cfg} {s : St} {x : Out} (h : Inv c s []) (ho : OptOk c s) (hx : x ∈ s.opt) :
+    Inv c { s with opt := [], uw := s.now :: s.uw, log := x :: s.log } [] := by
+  obtain ⟨p, rfl, hcool, hcd, hu⟩ := ho x hx
+  obtain ⟨⟨g1, g1', g2, g3, g4, g5, g6, g7, g8, g9, g10, g13, g14⟩, gn, gp⟩ := h
+  refine ⟨⟨g1, g1', g2, g3, g4, g5, ?_, ?_, ?_, g9, g10, g13, ?_⟩, gn, gp⟩
+  · refine List.pairwise_cons.2 ⟨?_, g6⟩
+    intro b hb
+    cases huw : s.uw with
+    | nil => simp [huw] at hb
+    | cons u tl =>
+      have hu' := hu u (by simp [huw])
+      rw [huw] at hb g6
+      rcases List.mem_cons.1 hb with rfl | hb
+      · exact hu'
+      · have := (List.pairwise_cons.1 g6).1 b hb
+        omega
+  · intro u hu'
+    simp only [List.head?_cons, Option.some.injEq] at hu'
+    subst hu'
+    refine ⟨Nat.le_refl _, ?_, ?_⟩
+    · intro d hd
+      simp only at hd
+      rw [hcd] at hd; cases hd; exact Nat.le_refl _
+    · intro hn
+      simp only at hn
+      rw [hcd] at hn; cases hn
+  · intro t ht
+    simp only [List.mem_cons] at ht
+    rcases ht with rfl | ht
+    · exact ⟨p, by simp⟩
+    · obtain ⟨q, hq⟩ := g8 t ht
+      exact ⟨q, by simp only [List.nil_append] at hq ⊢; exact List.mem_cons_of_mem _ hq⟩
+  · intro τ hτ
+    obtain ⟨q, hq, hm⟩ := g14 τ hτ
+    refine ⟨q, hq, hm.imp ?_ ?_⟩ <;>
+      (intro hm'; simp only [List.nil_append] at hm' ⊢; exact List.mem_cons_of_mem _ hm')
+
 theorem step_GInv (c : Cfg) (s : St) (o : Obs) (s' : St) (h : GInv c s) (hs : step? c s o = some s') :
     GInv c s' := by
   obtain ⟨hnow, hc⟩ := step_cases hs
-  unfold GInv at h ⊢
+  obtain ⟨h, hopt⟩ := h
+  unfold GInv
   cases hc with
-  | consume x ho hne ht hmem hs => subst hs; exact consume_Inv x h
+  | consume x ho hne ht hmem hs =>
+    subst hs
+    exact ⟨consume_Inv x h, hopt⟩
+  | consumeOpt x ho he ht hmem hs =>
+    subst hs
+    rw [he] at h
+    refine ⟨?_, fun o ho => by cases ho⟩
+    have := consumeOpt_Inv h hopt hmem
+    rw [he]
+    exact this.setExpect []
   | fire x s1 ho he ha hf =>
     rw [he] at h
     subst ho
     obtain ⟨h1, _, _, _⟩ := advance_Inv h hnow ha
     obtain ⟨tm, hn, _, _, rfl⟩ := fireAt_cases hf
-    exact consume_Inv x (fire_Inv h1 hn)
+    refine ⟨(consume_Inv x (fire_Inv h1 hn)).setOpt _, ?_⟩
+    intro o ho
+    simp only at ho
+    obtain ⟨d, p, rfl, hcd, hpac, rfl⟩ := tieOpt_mem ho
+    have hcool : c.cool ≠ 0 := fun h0 => by have := (h1.noCool h0).1; rw [hcd] at this; cases this
+    have hf := firePer_tie (c := c) (s := s1) (d := d) hpac hcool
+    have hnow' : (fire c s1 (.per d)).1.now = d := fire_now c s1 (.per d)
+    refine ⟨p, ?_, hcool, ?_, ?_⟩
+    · show Out.w p d = Out.w p (fire c s1 (.per d)).1.now
+      rw [hnow']
+    · show (fire c s1 (.per d)).1.cd = some ((fire c s1 (.per d)).1.now + c.cool)
+      rw [hnow']; exact hf.1
+    · intro u hu
+      show u + c.cool ≤ (fire c s1 (.per d)).1.now
+      rw [hnow']
+      have hu' : s1.uw.head? = some u := by
+        have : (fire c s1 (.per d)).1.uw = s1.uw := hf.2
+        simp only at hu
+        rw [this] at hu; exact hu
+      exact (h1.uwHead u hu').2.1 d hcd
   | input s1 r he ha hr hs =>
     rw [he] at h
     subst hs
     have ht := advance_tick_Inv h hnow ha
-    exact (inputReaction_Inv ht rfl hr).setExpect r.2
+    exact ⟨((inputReaction_Inv ht rfl hr).setExpect r.2).setOpt [], fun o ho => by cases ho⟩
   | sample s1 he ha hq hs =>
     rw [he] at h
     subst hs
     have ht := advance_tick_Inv h hnow ha
-    have hexp : (tick s1 o.time).expect = [] := by
-      -- silent firings leave nothing to observe
-      have : s1.expect = [] := by
-        have := advance_ind (c := c) (t := o.time) (incl := true) (fun s => s.expect = [])
-          (fun s tm hp hn _ he => by
-            cases tm with
-            | cd d =>
-              show (fireCd c (tick s d) d).1.expect = []
-              unfold fireCd
-              split
-              · unfold cooldownTarget
-                split
-                · exact hp
-                · split
-                  · exact hp
-                  · exact (send_expect c (armCd c (tick s d) d) _ false true d).trans hp
-              · exact hp
-            | per d =>
-              show (firePer c (tick s d) d).1.expect = []
-              unfold firePer
-              split
-              · simp only
-                rw [restartCd_expect]
-                exact (send_expect c (perLoop c (tick s d) d) _ false false d).trans hp
-              · exact hp) _ s s1 he ha
-        exact this.1
-      exact this
-    rw [hexp]; exact ht
+    have hexp : (tick s1 o.time).expect = [] := advance_expect he ha
+    refine ⟨?_, fun o ho => by cases ho⟩
+    exact Inv.congrExp hexp.symm (ht.setOpt [])
 
 theorem GInv_run (c : Cfg) (k : Bool) (tr : List Obs) (s : St) (h : run? (step? c) (init c k) tr = some s) :
     GInv c s :=
-  inv_run? (step? c) (GInv c) (step_GInv c) tr (init c k) s (Inv_init c k) h
+  inv_run? (step? c) (GInv c) (step_GInv c) tr (init c k) s ⟨Inv_init c k, fun o ho => by cases ho⟩ h
 
 
 /-! ### Relating the ghost fields to the trace -/
@@ -1167,6 +1309,11 @@ theorem step_HInv (c : Cfg) (k : Bool) (h : List Obs) (s : St) (e : Obs) (s' : S
   obtain ⟨_, hc⟩ := step_cases hs
   cases hc with
   | consume x ho hne ht hmem hs =>
+    subst hs; subst ho
+    refine ⟨?_, ?_⟩
+    · rw [track_snoc]; exact hi.trk
+    · simp [outsOf_snoc, hi.log]
+  | consumeOpt x ho he ht hmem hs =>
     subst hs; subst ho
     refine ⟨?_, ?_⟩
     · rw [track_snoc]; exact hi.trk
